@@ -90,23 +90,41 @@ def rule_tables(facts, rep):
     # create_effects
     c = facts.body("anstyle_roff", R + "styled_str::create_effects")
     rep.fn(c["path"])
-    e = ac.single_expr(c["hir"])
-    pairs = {}
-    while hir.is_call(e, "anstyle::effect::Effects::set"):
-        eff = hir.last_seg(hir.def_path(e["args"][1]))
-        src = hir.simp(e["args"][2])
-        if hir.is_call(src, "Option::<T>::unwrap_or") and hir.lit_val(src["args"][1]) is False:
-            f = hir.peel(src["args"][0])
-            pairs[eff] = f["name"] if f.get("k") == "field" and hir.is_local(f["e"], "category") else "?"
-        elif src.get("k") == "call" and hir.callee(src).startswith(R + "styled_str::is_"):
-            f = hir.peel(src["args"][0])
-            pairs[eff] = hir.callee(src).split("::")[-1] + "(" + (f["name"] if f.get("k") == "field" else "?") + ")"
-        else:
-            pairs[eff] = "?"
-        e = hir.simp(e["args"][0])
-    want = {"ITALIC": "italic", "BLINK": "blink", "INVERT": "reversed", "HIDDEN": "hidden", "STRIKETHROUGH": "strikethrough",
-            "UNDERLINE": "underline", "BOLD": "is_bold(intensity)", "DIMMED": "is_faint(intensity)"}
-    rep.check(pairs == want and hir.is_call(e, "anstyle::effect::Effects::new"), "tables", c["path"], "8-effect-rows", f"{pairs}", loc(c))
+    # the effect set as a function of the slice's flags, by abstract evaluation (anstyle's Effects::new/set/insert/remove are
+    # followed into their bodies): each flag alone sets exactly its effect, Some(false)/None set nothing, and all together give
+    # the union — a chain of .set(..), a fold over a table of pairs, a sequence of `|=` all evaluate alike
+    import abseval
+    FLAGS = {"italic": "ITALIC", "blink": "BLINK", "reversed": "INVERT", "hidden": "HIDDEN", "strikethrough": "STRIKETHROUGH", "underline": "UNDERLINE"}
+    bit = {n_: v for n_, v, _ in ac.effect_consts(facts)}
+    INT = "cansi::Intensity::"
+
+    def effects_of(flags, intensity):
+        cat = {f: (("some", ("bool", flags[f])) if f in flags else ("none",)) for f in FLAGS}
+        cat["intensity"] = ("none",) if intensity is None else ("some", ("enum", INT + intensity))
+        for extra in ("text", "start", "end", "fg", "bg"):
+            cat[extra] = ("sym", extra)
+        ev = abseval.Evaluator(facts, "anstyle_roff", {}, inline_crates=("anstyle",))
+        r = ev.call_fn("anstyle_roff", c["path"], [("rec", cat)])
+        if r[0] == "ctor" and len(r) == 3 and r[2][0] == "int":
+            return r[2][1]
+        raise Unrecognised(f"create_effects evaluates to {str(r)[:80]}")
+    rows, bad = 0, []
+    try:
+        cases = [({}, None, 0), ({f: False for f in FLAGS}, "Normal", 0), ({}, "Bold", bit["BOLD"]), ({}, "Faint", bit["DIMMED"])]
+        for f, eff in FLAGS.items():
+            cases.append(({f: True}, None, bit[eff]))
+            cases.append(({g: (g != f) for g in FLAGS}, "Bold", sum(bit[FLAGS[g]] for g in FLAGS if g != f) | bit["BOLD"]))
+        cases.append(({f: True for f in FLAGS}, "Faint", sum(bit[e_] for e_ in FLAGS.values()) | bit["DIMMED"]))
+        for flags, inten, want in cases:
+            got = effects_of(flags, inten)
+            rows += 1
+            if got != want:
+                bad.append(f"flags {sorted(k for k, v in flags.items() if v)} intensity {inten}: effects {got:#x}, expected {want:#x}")
+    except Unrecognised as ex:
+        bad.append(f"not evaluable: {ex}")
+    rep.count(rows)
+    rep.check(not bad and rows >= 17, "tables", c["path"], "8-effect-rows",
+              f"italic/blink/reversed/hidden/strikethrough/underline and Bold/Faint intensity each set exactly their effect ({rows} cases evaluated) {bad[:2]}", loc(c))
     for fn, var in (("is_bold", "Bold"), ("is_faint", "Faint")):
         f = facts.body("anstyle_roff", R + "styled_str::" + fn)
         m2 = ac.single_expr(f["hir"])
@@ -119,15 +137,26 @@ def rule_tables(facts, rep):
     # StyledStr::from
     s = facts.body("anstyle_roff", "<anstyle_roff::styled_str::StyledStr<'text> as core::convert::From<cansi::v3::CategorisedSlice<'text>>>::from")
     rep.fn(s["path"])
-    calls = {hir.callee(n).split("::")[-1]: n for n in hir.walk(s["hir"]) if n.get("k") == "call" and hir.callee(n) in ("anstyle::style::Style::fg_color", "anstyle::style::Style::bg_color")}
-    ok = True
-    for setter, field in (("fg_color", "fg"), ("bg_color", "bg")):
-        n = calls.get(setter)
-        a = hir.simp(n["args"][1]) if n else {}
-        ok = ok and hir.is_call(a, R + "styled_str::cansi_to_anstyle_color") and hir.place_str(a["args"][0]) == f"category.{field}"
-    st = [n for n in hir.walk(s["hir"]) if n.get("k") == "struct"]
-    ok = ok and len(st) == 1 and hir.place_str({x["name"]: x["e"] for x in st[0]["fields"]}.get("text")) == "category.text"
-    rep.check(ok, "tables", s["path"], "text/fg/bg-from-like-named-fields", "", loc(s))
+    cat = {f: ("sym", f) for f in ("text", "start", "end", "fg", "bg", "intensity", "italic", "underline", "blink", "reversed", "hidden", "strikethrough")}
+    ev = abseval.Evaluator(facts, "anstyle_roff", {R + "styled_str::cansi_to_anstyle_color": lambda a_: ("converted", a_[0]),
+                                                   R + "styled_str::create_effects": lambda a_: ("effects-of", a_[0])}, inline_crates=("anstyle",))
+    ok, why = True, ""
+    try:
+        # whatever the slice's attributes are (all absent / all on / all off), the colours and the text go through unchanged
+        for flagv, inten in ((("none",), ("none",)), (("some", ("bool", True)), ("some", ("enum", INT + "Bold"))),
+                             (("some", ("bool", False)), ("some", ("enum", INT + "Faint")))):
+            cat2 = dict(cat, intensity=inten, **{f: flagv for f in FLAGS})
+            r = ev.call_fn("anstyle_roff", s["path"], [("rec", dict(cat2))])
+            st_ = r[1].get("style") if r[0] == "rec" else None
+            good = r[0] == "rec" and set(r[1]) == {"text", "style"} and r[1]["text"] == ("sym", "text") and st_ and st_[0] == "rec" \
+                and st_[1].get("fg") == ("converted", ("sym", "fg")) and st_[1].get("bg") == ("converted", ("sym", "bg")) \
+                and st_[1].get("underline") == ("none",) and st_[1].get("effects") == ("effects-of", ("rec", cat2))
+            if not good:
+                ok, why = False, f"with attributes {flagv}: evaluates to {str(r)[:200]}"
+    except Unrecognised as ex:
+        ok, why = False, f"not evaluable: {ex}"
+    rep.check(ok, "tables", s["path"], "text/fg/bg-from-like-named-fields",
+              f"the segment keeps the slice's text, its colours are the converted fg / bg of the slice (no underline colour) and its effects are create_effects(slice) {why}", loc(s))
     # is_bright, ansi_color_to_roff
     ib = facts.body("anstyle_roff", R + "is_bright")
     rep.fn(ib["path"])
